@@ -55,6 +55,12 @@ def lam_of(freqs, factor):
     return np.sign(f) * (f / factor) ** 2
 
 
+def ptol(dec, values):
+    """Printed precision: half a unit of the last printed decimal plus 8 ulp of the largest printed magnitude (matters once values reach hundreds,
+    e.g. frequencies in cm^-1 printed with 10 decimals)."""
+    return 0.5000001 * 10.0 ** (-dec) + 8 * np.finfo(float).eps * max(float(np.abs(np.array(values, float)).max()), 1.0)
+
+
 def decimals_in(text, key):
     """Smallest number of printed decimals among the numbers on lines containing key."""
     dec = None
@@ -399,7 +405,7 @@ def run_case(c):
         fy = np.array([[b["frequency"] for b in p["band"]] for p in y["phonon"]])
         obs["n_files"] = obs.get("n_files", 0) + 2
         obs["printed_decimals_frequency"] = [dec]
-        if np.abs(fy - np.array(d["frequencies"])).max() > 0.5000001 * 10.0 ** (-dec):
+        if np.abs(fy - np.array(d["frequencies"])).max() > ptol(dec, d["frequencies"]):
             bad("yaml_roundtrip", "qpoints.yaml frequencies differ from the results by %.3e (printed decimals %d)" % (np.abs(fy - np.array(d["frequencies"])).max(), dec), file="qpoints.yaml")
         ey = np.array([[[complex(*xy) for xy in b["eigenvector"][a]] for a in range(len(pr))] for p in y["phonon"] for b in p["band"]]) if "eigenvector" in y["phonon"][0]["band"][0] else None
         if ey is not None:
@@ -420,11 +426,11 @@ def run_case(c):
         y = yaml.safe_load(txt)
         dec = decimals_in(txt, "frequency:")
         fy = np.array([[b["frequency"] for b in p["band"]] for p in y["phonon"]])
-        if np.abs(fy - np.array(bd["frequencies"][0])).max() > 0.5000001 * 10.0 ** (-dec):
+        if np.abs(fy - np.array(bd["frequencies"][0])).max() > ptol(dec, bd["frequencies"][0]):
             bad("yaml_roundtrip", "band.yaml frequencies differ from the results by %.3e" % np.abs(fy - np.array(bd["frequencies"][0])).max(), file="band.yaml")
         decg = decimals_in(txt, "group_velocity:")
         gy = np.array([[b["group_velocity"] for b in p["band"]] for p in y["phonon"]])
-        if np.abs(gy - np.array(bd["group_velocities"][0])).max() > 0.5000001 * 10.0 ** (-decg):
+        if np.abs(gy - np.array(bd["group_velocities"][0])).max() > ptol(decg, bd["group_velocities"][0]):
             bad("yaml_roundtrip", "band.yaml group velocities differ from the results by %.3e" % np.abs(gy - np.array(bd["group_velocities"][0])).max(), file="band.yaml")
         ph.run_mesh(mesh, with_eigenvectors=False, is_mesh_symmetry=True)
         md2 = ph.get_mesh_dict()
@@ -436,7 +442,7 @@ def run_case(c):
         fy = np.array([[b["frequency"] for b in p["band"]] for p in y["phonon"]])
         wy = np.array([p["weight"] for p in y["phonon"]])
         obs["n_files"] += 4
-        if np.abs(fy - np.array(md2["frequencies"])).max() > 0.5000001 * 10.0 ** (-dec) or not np.array_equal(wy, np.array(md2["weights"])):
+        if np.abs(fy - np.array(md2["frequencies"])).max() > ptol(dec, md2["frequencies"]) or not np.array_equal(wy, np.array(md2["weights"])):
             bad("yaml_roundtrip", "mesh.yaml frequencies/weights differ from the results", file="mesh.yaml")
         qy = np.array([p["q-position"] for p in y["phonon"]])
         if np.abs(qy - np.array(md2["qpoints"])).max() > 0.5000001e-7:
